@@ -145,3 +145,77 @@ def table(thorough=False):
             out[(b.impl_self, txt)] = (got, ref, b)
     _C[key_] = out
     return out
+
+
+# ---- overridden Iterator methods ---------------------------------------------------------------------------------------------
+def check_iterator_overrides(R, rule):
+    """The list iterators define `next`; every other Iterator method a caller may use (`nth`, `skip`, `step_by`, `last`,
+    `count` ...) is core's, defined through `next`. An override is a second implementation of the same sequence: it is
+    folded against `next` - from a fresh and from a partly consumed iterator, `nth(k)` must return what k + 1 calls of
+    `next` return and leave the iterator where they leave it (seed C19-O). An override of another method is reported as not
+    decided."""
+    import copy
+    eng, u = engine()
+    its = {}
+    for b in u.bodies:
+        if (b.impl_trait or "").endswith(" as core::iter::Iterator>") and b.name and b.kind != "Closure" and "/parser/" in ("/" + b.file()):
+            its.setdefault(b.impl_self or "?", {})[b.name] = b
+    R.floor(rule, "iterator impls of the parser", len(its), 4)
+    n_over = 0
+    for ty, ms in sorted(its.items()):
+        extra = sorted(set(ms) - {"next"})
+        if "next" not in ms:
+            R.violation(rule, "overrides:%s" % ty, "impl Iterator for %s without `next`" % ty)
+            continue
+        bad = []
+        for name in extra:
+            n_over += 1
+            if name == "size_hint":
+                continue            # bounds only; no element is produced through it
+            if not (name == "nth" and ty.endswith("ChannelSpecIterator<'a>")):
+                bad.append("%s::%s is overridden and its agreement with `next` is not decided" % (ty, name))
+                continue
+            adt = [a for a in u.adts if a.endswith("channel_list::ChannelSpec")][0]
+            into = [b for b in u.bodies if b.name == "into_iter" and (b.impl_self or "").endswith("ChannelSpec<'a>")]
+            if len(into) != 1:
+                bad.append("IntoIterator for ChannelSpec not found")
+                continue
+
+            def fresh(txt):
+                res = eng.run(into[0], [AggV(adt, {0: M._mkslice(txt), 1: K(txt.count(b"!") + 1)})])
+                return Cell(res[0].retval, "it") if len(res) == 1 and res[0].outcome == "return" else None
+
+            def call(body, cell, *more):
+                res = eng.run(body, [RefV(cell, (), True)] + list(more))
+                if len(res) != 1 or res[0].outcome != "return":
+                    return "undecided"
+                return repr(fdai.snapshot(res[0].retval))
+            for txt in (b"11!22!33", b"7", b"1!-2", b"5!6!7!8"):
+                ref_it = fresh(txt)
+                if ref_it is None:
+                    bad.append("%r: into_iter undecided" % txt)
+                    continue
+                items = [call(ms["next"], ref_it) for _ in range(txt.count(b"!") + 3)]
+                for pre in range(0, 3):
+                    for k in range(0, 3):
+                        it = fresh(txt)
+                        for _ in range(pre):
+                            call(ms["next"], it)
+                        got = call(ms[name], it, K(k))
+                        after = call(ms["next"], it)
+                        want = items[pre + k] if pre + k < len(items) else items[-1]
+                        want_after = items[pre + k + 1] if pre + k + 1 < len(items) else items[-1]
+                        if got != want or after != want_after:
+                            bad.append("%r: after %d next(), nth(%d) returns %s then next() %s; %d calls of next() return %s then %s" % (txt, pre, k, _short(got), _short(after), k + 1, _short(want), _short(want_after)))
+        R.check(not bad, rule, "overrides:%s" % ty.split("::")[-1], "defines %s; the other Iterator methods are core's, defined through next" % (["next"] + extra), "; ".join(bad[:3]), where=ms["next"].span)
+    R.count("iterator_overrides", n_over)
+
+
+def _short(s):
+    """`Some(Ok(22))` instead of the snapshot's nested tuples"""
+    m = re.search(r"'K', (-?\d+)", s)
+    if "'None'" in s and not m:
+        return "None"
+    if m:
+        return "Some(Ok(%s))" % m.group(1)
+    return "Some(Err)" if "'Err'" in s else s[:50]
